@@ -177,7 +177,7 @@ def drive(task):
             yield from events({"kind": "pda_eps_graph", "seed": task["seed"] * 100000 + i}, task["n"], rng)
     else:
         for i in range(task["count"]):
-            yield from events({"kind": "pda_rnd", "seed": task["seed"] * 100000 + i}, task["n"], rng)
+            yield from events({"kind": "pda_rnd", "seed": task["seed"] * 100000 + i, "multichar": 1}, task["n"], rng)
 
 
 def redrive(src):
